@@ -852,7 +852,10 @@ func (x *e1) checkCancelledCall(sd *sideRec, verb string, start int, err error) 
 		// was closed); anything else must be the context's error
 		// (if the connection went away for another reason at the same time, that reason may win)
 		otherCause := x.phase == "q4" || x.serveDone || x.sep.IsClosed() || x.ioFired() || x.transportClosedByHarness() || x.closeStep > 0
-		if err != nil && !isCtxErr(err) && !errors.Is(err, io.EOF) && !sd.ClosedByMe && !otherCause {
+		// the peer's own Close/return may reach the stream before the cancel is
+		// processed; the send then reports that the remote closed the stream
+		peerEnded := errClass(err) == "closed" && r.H != nil && (r.H.ClosedByMe || r.HReturned)
+		if err != nil && !isCtxErr(err) && !errors.Is(err, io.EOF) && !sd.ClosedByMe && !otherCause && !peerEnded {
 			x.viol("cancel-error", fmt.Sprintf("send blocked in the transport at cancel returned %s instead of the context error (default mode)", errClass(err)), errStr(err))
 		}
 	}
